@@ -3,8 +3,8 @@ From CV Require Import Base Consts ConcChannel.
 From CVP Require Import ConcChannel_proofs.
 Open Scope N_scope.
 
-(* For channel() and sync_channel(n >= 1) used through send / try_send, ANY number of sender threads with ANY well-formed
-   programs of send/clone/drop, ANY number of dispatches and ANY schedule (one mpsc enqueue/try_send, sender-count change,
+(* For channel() and sync_channel(n >= 1) used through send / try_send / the blocking SyncSender::send, ANY number of sender threads with ANY well-formed
+   programs of send/blocking send/clone/drop, ANY number of dispatches and ANY schedule (one mpsc enqueue/try_send, sender-count change,
    eventfd write, poll, drain or try_recv per step), every reachable state satisfies ccinv:
    - delivered ++ queued = sent           (each sent message is delivered at most once, in send order, none invented)
    - a non-empty queue or a pending disconnect always has a wake-up on its way (readable eventfd, a sender about to ping,
@@ -20,10 +20,16 @@ Theorem C04_wake_leads_to_drain : forall s d, creg s = true -> 2 <= cctr s -> cl
   cl_stage (cloop (cl_step s)) = CLDrain.
 Proof. exact cc_poll_progress. Qed.
 
-(* KNOWN FINDING F9 (outside this model, which covers send on channel() and try_send on sync_channel(n>=1)):
+(* KNOWN FINDING F9 (outside this model, which covers send on channel() and try_send / blocking send on sync_channel(n>=1)):
    SyncSender::send on sync_channel(0) pings in try_send BEFORE it starts offering the message; see DESIGN.md section 5. *)
 
 Example C04_nonvacuous :
   let s := cc_run None [[CSend 7; CSend 8; CDropS]] 3 [1; 1; 1; 0; 0; 0; 1; 1; 1; 0; 0; 0; 0; 0; 0; 0]%nat in
   cdelivered s = [7; 8] /\ cclosed s = 1 /\ creg s = false.
+Proof. vm_compute. repeat split. Qed.
+(* a blocking send on a full sync_channel(1): its try_send fails and pings, the loop drains and sees Empty before the blocking
+   mpsc send starts; the message is enqueued afterwards and the final ping of send() gets it delivered *)
+Example C04_blocking_nonvacuous :
+  let s := cc_run (Some 1) [[CSend 7; CSendB 8]] 4 ([1; 1; 1; 1] ++ [0; 0; 0; 0] ++ [1; 1] ++ repeat 0 8)%nat in
+  cdelivered s = [7; 8] /\ cq s = [] /\ csent s = [7; 8].
 Proof. vm_compute. repeat split. Qed.
